@@ -42,6 +42,14 @@ def scenario(rng, S, M, hashmode, nsweeps, workers=0):
                 lines.append("find %d 0" % d)
             if rng.random() < 0.15 and present:
                 lines.append("erase %d" % present.pop(rng.randrange(len(present))))
+            if rng.random() < 0.08:
+                # plain (fault-free) copy / move assignment from a table of another size onto this one: everything the
+                # overwritten table held must be destroyed and returned
+                n_src = rng.choice([0, 1, 3, 9, 40, 200])
+                lines.append("%s %d 0" % (rng.choice(["assign", "moveassign"]), n_src))
+                lines.append("scan")
+                present = []
+                keys = [k for k in keys if not (700000 <= k < 700000 + 400)]
         if rng.random() < 0.3 or i >= n_fill:
             lines.append("scan")
             lines.append("oldfreed")
@@ -88,10 +96,19 @@ def run_scenario(exe, lines, timeout=240):
     import subprocess
     import time
     t0 = time.time()
+    timeout = C.scaled(timeout)
+    e = None
     try:
         p = subprocess.run([exe], input="\n".join(lines) + "\n", env=env, stdout=subprocess.PIPE, stderr=subprocess.PIPE,
                            timeout=timeout, universal_newlines=True, errors="replace")
-    except subprocess.TimeoutExpired as e:
+    except subprocess.TimeoutExpired:
+        # once more, alone and with a longer limit, before calling it a hang
+        try:
+            p = subprocess.run([exe], input="\n".join(lines) + "\n", env=env, stdout=subprocess.PIPE, stderr=subprocess.PIPE,
+                               timeout=3 * timeout, universal_newlines=True, errors="replace")
+        except subprocess.TimeoutExpired as e2:
+            e = e2
+    if e is not None:
         out = e.stdout or ""
         if isinstance(out, bytes):
             out = out.decode(errors="replace")
@@ -111,11 +128,13 @@ def classify(line_in, line_out):
             props.add("C08")
         if "is held after the call" in msg:
             props.add("C04")
+        if "size()" in msg or "[count" in msg or "count]" in msg or ", count" in msg:
+            props.add("C05")        # the per-stripe counters no longer add up to the number of stored pairs
         return props, msg
     if line_out.startswith("ARGS") or line_out.startswith("HETERO"):
         return {"C16"}, line_out
     if line_out.startswith("scan BAD") or line_out.startswith("destroy BAD") or line_out.startswith("oldfreed BAD"):
-        return {"C08"} | ({"C07"} if "stored twice" in line_out or "size()" in line_out else set()), line_out
+        return {"C08"} | ({"C07"} if "stored twice" in line_out or "size()" in line_out else set()) | ({"C05"} if "size()" in line_out else set()), line_out
     if line_out.startswith("err") and line_in.split()[0] not in ("upsthrow",) and "eqthrow" not in line_out \
             and line_out not in ("err lftl", "err maxhp", "err invalid"):
         # no fault was armed for plain requests
